@@ -6,8 +6,7 @@ package requestf
 // RequestPacket and ResponsePacket are the two structs decoded from every packet
 // received from the network (property C05) and encoded on every call (C03).
 //
-//@ pred validR(b) = b != nil && b.buf != nil && b.ref == b.buf.src && b.buf.i >= 0 && allocated(b.ref)
-//@ pred validB(b) = b != nil && b.buf != nil
+// (validR and validB are the predicates of package codec's contracts)
 //
 // ------------------------------------------------------------------ RequestPacket
 //
